@@ -312,6 +312,10 @@ func (h *handler) processUnaryRpc(
 ) *goatorepo.Rpc {
 	ctx, cancel, err := contextFromHeaders(clientCtx, rpc.GetHeader())
 	defer cancel()
+	// The handler's context hangs off the context given to Serve, which the
+	// connection does not control: cancel it when the connection ends too.
+	stopAfterFunc := context.AfterFunc(h.ctx, cancel)
+	defer stopAfterFunc()
 	if err != nil {
 		// The peer sent metadata we cannot decode. That is its problem, not a
 		// reason to stop serving: answer with an error, never run the handler.
